@@ -248,11 +248,11 @@ func (rl *Shell) viForwardChar() {
 
 	// In vi-cmd-mode, we don't go further than the
 	// last character in the line, hence rl.line-1
-	if rl.Keymap.Main() != keymap.ViInsert && rl.cursor.Pos() < rl.line.Len()-1 {
+	if rl.Keymap.Main() != keymap.ViInsert {
 		vii := rl.Iterations.Get()
 
 		for i := 1; i <= vii; i++ {
-			if (*rl.line)[rl.cursor.Pos()+1] == '\n' {
+			if rl.cursor.Pos() >= rl.line.Len()-1 || (*rl.line)[rl.cursor.Pos()+1] == '\n' {
 				break
 			}
 
